@@ -15,7 +15,7 @@ import suites as SU
 PID = "C04"
 # mir_eval.key is also REGENERATED from the source (translate/scalars.py); Props/C04_KeyGen.lean proves the generated
 # definitions equal to the hand-written key model
-TRANSLATOR_PARTS = ["scalars_key"]
+TRANSLATOR_PARTS = ["scalars_key", "defaults"]   # defaults: Props/C04_Defaults.lean (documented defaults, decide)
 _here = os.path.dirname(os.path.abspath(__file__))
 _props = os.path.join(os.path.dirname(os.path.dirname(_here)), "lean", "MirProofs", "Props")
 LEAN_MODULES = sorted("MirProofs.Props." + os.path.basename(f)[:-5]
